@@ -476,6 +476,17 @@ func (w *Worker) apply(st *Stim) {
 		w.Race(st.Plan)
 	case "authfile":
 		w.authFile(st)
+	case "ndown":
+		w.Log.Add(Event{Ev: "ndown", N: st.N})
+		if err := w.Cl.SetDown(st.N, true); err != nil {
+			w.Unreal++
+		}
+	case "nup":
+		if err := w.Cl.SetDown(st.N, false); err != nil {
+			w.Log.Add(Event{Ev: "skip", N: st.N, Txt: "nup: " + err.Error()})
+			w.Unreal++
+		}
+		w.Log.Add(Event{Ev: "nup", N: st.N})
 	case "npause":
 		w.Cl.SetPaused(st.N, true)
 	case "nresume":
